@@ -21,4 +21,24 @@ CHECKS = {
                 "theorems are exhaustive; histories longer than two imports are not covered by a theorem.",
         "technique": "translator-regenerated table + Lean 4 kernel evaluation (decide +kernel) + fresh-interpreter correspondence",
     },
+    "C11": {
+        "text": "Every `while` statement and directly recursive function of the non-test code is enumerated by a translator on every run; a "
+                "table theorem says each is one of six modelled loops / four reviewed structural recursions. Each loop is a Lean step function "
+                "with a measure proved to decrease (Lean accepts the loop only because of that proof) and a theorem bounding header "
+                "evaluations by |input|+1. The models use the code's real index arithmetic and are tied to it by comparing while-header "
+                "line-event counts (sys.settrace) and results on exhaustive short token strings, repo docstrings and mutants; every real call runs under a watchdog.",
+        "note": "Partial: wall-clock time is proved as an iteration bound, not seconds; `for` loops and library calls are finite by "
+                "construction/assumption; find_in_ast is modelled abstractly (any body). Trusted: Lean kernel + 3 axioms, the ast translator, sys.settrace counts.",
+        "technique": "Lean 4 termination proofs (well-founded recursion with explicit measures) + translator table (decide) + trace-count correspondence",
+    },
+    "C10": {
+        "text": "Lean theorems about merge_params with the Python set iteration order as an explicit oracle: the result is independent of the "
+                "oracle (hash seed) and its key order is fully specified; a translator-regenerated table of every set expression in non-test "
+                "code is proved (decide) to contain only membership/sorted/order-insensitive uses or reviewed sites. Tied to the code by "
+                "comparing merged dicts, and the process-level claim is exercised by byte-for-byte differential runs across PYTHONHASHSEED "
+                "values and in-process call histories (including re-use of one caller-owned AST across conversions).",
+        "note": "Partial: the theorem covers merge_params and the syntactic site table (one hop of name tracking); determinism of every other "
+                "function is by being a function in the model and is observed, not proved, at process level. Trusted: Lean kernel + 3 axioms, translator, differential harness.",
+        "technique": "Lean 4 proof (permutation invariance of a fold) + translator table (decide) + hash-seed/history differential",
+    },
 }
